@@ -1037,6 +1037,41 @@ def multiplicity_mismatch(x: Any, y: Any) -> str | None:
     return None
 
 
+def keyed_collapse(x: Any, y: Any, model: Model | None) -> str | None:
+    """The implementation routes a collection through a dict keyed by ONE attribute of each element and reads `.values()` back, where the
+    definition keeps every element: two elements that agree on that attribute collapse into one.  Reported only when the key is a proper projection
+    (`e.f` for an element class that compares more than `f`), so that colliding elements exist by the class's own definition."""
+    def dict_values(t):
+        for s_ in subterms_of(t):
+            if s_[0] == "meth" and s_[2] == "values" and not s_[3] and not s_[4]:
+                yield s_[1]
+
+    def has_dictish(t):
+        return any(s_[0] == "dictlit" or (s_[0] == "comp" and s_[1] == "dict") or (s_[0] == "meth" and s_[2] in ("values", "items", "keys")) for s_ in subterms_of(t))
+
+    if has_dictish(y):
+        return None
+    for d_ in dict_values(x):
+        keys = []
+        for s_ in subterms_of(d_):
+            if s_[0] == "accum" and s_[1] == "effect" and is_term(s_[3]) and s_[3][0] == "setitem" and len(s_[3]) == 3 and len(s_[4]) >= 1:
+                keys.append((s_[3][1], s_[4][0][0]))
+            if s_[0] == "comp" and s_[1] == "dict" and is_term(s_[2]) and s_[2][0] == "kv" and len(s_[3]) >= 1:
+                keys.append((s_[2][1], s_[3][0][0]))
+        for k_, bound in keys:
+            if k_[0] == "attr" and k_[1] == bound and isinstance(k_[2], str):
+                fld = k_[2]
+                wider = None
+                if model is not None:
+                    owners = [c for c in model.classes.values() if fld in c.all_fields() and c.is_dataclass and len(c.all_fields()) > 1]
+                    wider = owners[0] if owners else None
+                if wider is not None:
+                    others = [f_ for f_ in wider.all_fields() if f_ != fld]
+                    return (f"the elements are collected in a dict keyed by `.{fld}` and read back with .values(): two elements with the same {fld} "
+                            f"(they may still differ in {', '.join(others[:2])}) collapse into one, the definition keeps both")
+    return None
+
+
 def guarded_equal(x: Any, y: Any, guard, sa: SetAlg, depth: int = 0, foralls: tuple = ()) -> bool:
     """Are the two (raw) values equal on every input that satisfies the joint guard?  Set-valued operands are compared by membership
     under the guard (a part that is empty on these inputs does not count); everything else must have the same canonical form."""
@@ -1399,6 +1434,9 @@ def compare_with_reference(model: Model, impl_q: str, ref_q: str, types: dict[st
             mm_ = multiplicity_mismatch(a.raw, b.raw) if a.kind == b.kind == "return" and not a.unknown else None
             if mm_ is not None:
                 return f, "REFUTED", mm_ + f" (line {a.path.line})", sample
+            kc_ = keyed_collapse(a.raw, b.raw, model) if a.kind == b.kind == "return" and not a.unknown else None
+            if kc_ is not None:
+                return f, "REFUTED", kc_ + f" (line {a.path.line})", sample
             if a.kind == b.kind == "return" and not a.unknown and (guarded_equal(a.raw, b.raw, joint_guard(a, b, sa), sa, foralls=fas) or (
                     fas and guarded_equal(drop_implied_filters(a.raw, fas, sa), drop_implied_filters(b.raw, fas, sa), joint_guard(a, b, sa), sa, foralls=fas))):
                 agreed.add(id(b))
